@@ -32,6 +32,8 @@ type Global struct {
 	direct   map[*ssa.Function]map[string]bool
 	typeByID map[string]types.Type
 	frameBits map[*ssa.Function][]uint64
+	frameBitsExt map[*ssa.Function][]uint64
+	framesExt map[*ssa.Function]map[string]bool
 	keyName  []string
 	nonNil   map[*ssa.Global]bool
 	loadS    float64
